@@ -235,6 +235,51 @@ fn scale_cases(sink: &mut EnumSink) {
             return;
         }
     }
+    // near-twin partitions ("a fingerprint stands for the partition"): two partitions of equal length whose
+    // bounds are equal except two neighbouring ones, which differ by (+a, -m*a) or (-m*a, +a) for the
+    // multipliers polynomial and rotate-xor checksums commonly use; merged in both orders
+    let mults: [i64; 12] = [1, 2, 31, 33, 37, 127, 131, 251, 257, 65_521, 65_537, 65_599];
+    let mut n_twin = 0usize;
+    for &m in &mults {
+        for a in [1i64, -1, 2] {
+            for shape in 0..3 {
+                // base bounds x0 <= x1 < x2 <= x3, perturb the pair (x_i, x_{i+1})
+                let base: [i64; 4] = [100, 90_000, 120_000, 190_000];
+                for first in 0..3usize {
+                    for swap in [false, true] {
+                        let mut tw = base;
+                        let (d0, d1) = if swap { (-m * a, a) } else { (a, -m * a) };
+                        tw[first] += d0;
+                        tw[first + 1] += d1;
+                        let ok = |b: &[i64; 4]| b[0] >= 0 && b[0] <= b[1] && b[1] < b[2] && b[2] <= b[3] && b[3] <= MAX as i64;
+                        if !ok(&tw) {
+                            continue;
+                        }
+                        let mk = |b: &[i64; 4]| -> Part {
+                            match shape {
+                                0 => vec![(b[0] as u32, b[1] as u32), (b[2] as u32, b[3] as u32)],
+                                1 => vec![(b[0] as u32, b[3] as u32)].into_iter().filter(|_| first == 0 && false).chain(vec![(b[1] as u32, b[2] as u32)]).collect(),
+                                _ => vec![(0, 5), (b[0] as u32, b[1] as u32), (b[2] as u32, b[3] as u32), (MAX - 3, MAX)],
+                            }
+                        };
+                        let (pa, pb) = (mk(&base), mk(&tw));
+                        if pa == pb {
+                            continue;
+                        }
+                        let mut o = Outcome::default();
+                        check_pair(&pa, &pb, &mut o);
+                        check_pair(&pb, &pa, &mut o);
+                        n_twin += 1;
+                        sink.case(&o, true, || format!("near-twin partitions {} / {}", show_part(&pa), show_part(&pb)));
+                        if sink.failed() {
+                            return;
+                        }
+                    }
+                }
+            }
+        }
+    }
+    sink.stats.exhaustive_spaces.push(format!("{} near-twin pairs of partitions: equal bounds except two neighbouring ones that differ by (+a, -m*a) / (-m*a, +a), a in {{1,-1,2}}, m in {:?}", n_twin, mults));
     sink.stats.exhaustive_spaces.push("6 scale cases with partitions of 98 304 - 196 608 singleton intervals".to_string());
 }
 
@@ -309,8 +354,42 @@ fn gen_related(t: &mut Tape, p1: &Part) -> Part {
 
 pub fn run(tape: &[u8], cx: &Cx) -> Outcome {
     let mut t = Tape::new(tape);
-    let p1 = gen_partition(&mut t, 6);
-    let p2 = gen_related(&mut t, &p1);
+    let mut p1 = gen_partition(&mut t, 6);
+    let mut p2 = gen_related(&mut t, &p1);
+    // an eighth of the cases: two long partitions (10-40 intervals) that share a long run of identical
+    // intervals and differ in one place: an interval of one of them shrunk, widened, split or dropped
+    // (block-wise copying of common runs)
+    if t.bool_p(32) {
+        let n = 10 + t.choose(31);
+        let mut pos = t.u32_in(0, 40);
+        p1 = Vec::new();
+        for _ in 0..n {
+            let w = t.u32_in(0, 5);
+            p1.push((pos, pos + w));
+            pos += w + 1 + t.u32_in(0, 3);
+        }
+        p2 = p1.clone();
+        let k = t.choose(n);
+        let (a, b) = p2[k];
+        match t.choose(5) {
+            0 if b > a => p2[k] = (a + 1, b),
+            1 if b > a => p2[k] = (a, b - 1),
+            2 if b > a + 1 => {
+                p2[k] = (a, a);
+                p2.insert(k + 1, (a + 2, b));
+            }
+            3 => {
+                p2.remove(k);
+            }
+            _ => {
+                let lo = if k == 0 { a.saturating_sub(1) } else { (p2[k - 1].1 + 1).max(a.saturating_sub(1)) };
+                p2[k] = (lo.min(a), b);
+            }
+        }
+        if t.flag() {
+            std::mem::swap(&mut p1, &mut p2);
+        }
+    }
     let extra = t.choose(3);
     let mut parts = vec![p1.clone(), p2.clone()];
     for _ in 0..extra {
